@@ -53,6 +53,17 @@ CHECKS = {
         note=TB + "; CPython GIL with line-granularity scheduling; harness-side replacement of the library's RLocks by scheduler-aware locks",
         technique="TLA+ protocol spec + PlusCal implementation model (TLC); trace validation of real sequential / aborted / scheduled-thread executions",
         ref="3 C20"),
+    "C19": dict(
+        text="BootstrapOps.tla is the protocol any correct lazy bootstrap must follow (at most one bootstrap per class by one thread, parents first, each Attr/field "
+             "declaration consumed once, nothing modified after publication, no use observed before publication); BootstrapImpl.tla (PlusCal) model-checks all "
+             "interleavings of 2-3 threads for three synchronisation designs (the two pre-fix ones violate, publish-last holds). Real threads perform the first use "
+             "(instantiate / __spec_class__ / __dataclass_fields__ / through a subclass) of freshly built lazy classes (Attr and dataclasses.field declarations, lazy "
+             "parent, own __new__, plain subclass, nested spec types) under a deterministic line-level scheduler: quick = a fixed fraction of all <=1-preemption schedules at "
+             "shared-state lines + random; thorough = every <=1-preemption schedule at any library line, thinned <=2, 3 threads. TLC validates each recorded execution "
+             "against the protocol and compares every thread's canonical class description and instance repr with the eager sequential reference.",
+        note=TB + "; CPython GIL with line-granularity scheduling; harness-side replacement of the library's RLocks",
+        technique="TLA+ protocol spec + PlusCal implementation model (TLC); trace validation of real scheduled-thread executions against the eager reference",
+        ref="3 C19"),
 }
 
 PENDING = "check not built yet in this round (see DESIGN.md section 3 for the planned TLA+ module)"
